@@ -9,7 +9,8 @@ everything up to end of file belongs to the reply.
 """
 import os, select, shutil, subprocess, time, threading
 
-ASUSER = os.path.join(os.path.dirname(os.path.dirname(os.path.abspath(__file__))), "build", "standin_asuser")
+import vlib
+ASUSER = os.path.join(vlib.BUILD, "standin_asuser")
 UID = 54321            # unprivileged user the server runs as (the sandbox itself is root)
 VERBS = ["QUIT", "STAT", "LIST", "UIDL", "DELE", "RETR", "RSET", "LAST", "TOP", "NOOP"]
 POPUP_VERBS = ["USER", "PASS", "APOP", "NOOP", "QUIT"]
